@@ -44,6 +44,7 @@ From FB.Proofs Require Import ReplayLaws ViewDefs ViewLemmas ViewScan ViewQuerie
    (Gen/BookGen.v, regenerated on every run); a change of those sources that the model does not follow breaks this import *)
 From FB.Proofs Require BookGenLaws.
 From FB.Proofs Require ExecGenLaws.   (* T1g: the model routines are equal to the translation of the source (Gen/ExecGen.v) *)
+From FB.Proofs Require OpsGenLaws.   (* T1g: build_file*, subbuild, queries, cache validation of file_builder.py = Model/Builder.v (Gen/OpsGen.v) *)
 Import ListNotations.
 Open Scope m_scope.
 
